@@ -193,7 +193,7 @@ def r8_attrs(text, notes, keep_derives=KEEP_DERIVES):
             repl = ('#[derive(%s)]' % ', '.join(kept)) if kept else ''
             if dropped:
                 notes.add('R8', 'derive dropped: ' + ','.join(dropped))
-        elif aname in ('allow', 'doc', 'inline', 'must_use', 'deny', 'warn'):
+        elif aname in ('allow', 'doc', 'inline', 'must_use', 'deny', 'warn', 'serde', 'rpc'):
             repl = ''
             notes.add('R8', 'attribute dropped: ' + aname)
         elif aname in ('repr',):
